@@ -86,6 +86,13 @@ class Opts:
         self.ctl_p = 0.25           # probability of injecting a control block into an expression
         self.closure_fail_p = 0.3
         self.side_effect_p = 0.5    # probability of side effects in short-circuit operands
+        self.probes = False         # statement probes on live variables / paths after statements
+        self.wrap_probes = 0.0      # probability of wrapping an infallible sub-expression in a probe
+        self.stdlib = None          # list of stdlib function descriptors for arbitrary calls
+        self.stdlib_p = 0.0         # probability that a statement is a stdlib call
+        self.var_paths = 0.0        # probability of variable path targets / reads / del on variables
+        self.const_bias = 0.0       # bias towards literal assignments (constant flows)
+        self.target_bias = 0.0      # bias towards event / metadata reads, writes, del, exists, unnest
         for k, v in kw.items():
             setattr(self, k, v)
 
@@ -99,8 +106,12 @@ class Gen:
         self.varn = 0
         self.vars = {}      # name -> kind (INT.. or "any")
         self.in_closure = 0
+        self.scope_depth = 0
         self.params_used = []   # (name, shadowed: bool)
         self.ctl_sites = []     # kinds of control statements emitted with their context
+        self.probe_n = 0
+        self.probe_info = {}    # tag -> {"kind": "stmt"|"wrap", ...}
+        self.perturbed = set()  # variables written through paths / del / closures / branches
 
     # -- small helpers
     def p(self, x):
@@ -166,6 +177,12 @@ class Gen:
         return self.choice(opts)
 
     def expr(self, kind, fal_ok=False, d=None):
+        e, f = self.expr0(kind, fal_ok, d)
+        if self.o.wrap_probes and not f and e[0] in ("op", "call", "not") and self.p(self.o.wrap_probes):
+            return self.new_probe("wrap", e, node=e[0] + ":" + str(e[1]) if e[0] != "not" else "not"), f
+        return e, f
+
+    def expr0(self, kind, fal_ok=False, d=None):
         """Expression of `kind`; returns (node, fallible_estimate)."""
         d = self.o.max_depth if d is None else d
         r = self.rng
@@ -205,7 +222,9 @@ class Gen:
     def scoped_expr(self, kind, fal_ok, d):
         """Expression generated inside a nested lexical scope (new variables invisible outside)."""
         saved = dict(self.vars)
+        self.scope_depth += 1
         e, f = self.expr(kind, fal_ok, d)
+        self.scope_depth -= 1
         self.restore_scope(saved)
         return e, f
 
@@ -377,21 +396,62 @@ class Gen:
     # -- statements
     def stmts(self, n, d, scoped=False):
         saved = dict(self.vars) if scoped else None
+        if scoped:
+            self.scope_depth += 1
         out = []
         for _ in range(n):
             out.extend(self.stmt(d))
+            if self.o.probes:
+                out.extend(self.stmt_probes())
         if scoped:
+            self.scope_depth -= 1
             self.restore_scope(saved)
+        return out
+
+    def new_probe(self, kind, expr, **info):
+        self.probe_n += 1
+        tag = "p%d" % self.probe_n
+        info["kind"] = kind
+        info["in_closure"] = self.in_closure
+        self.probe_info[tag] = info
+        return ["probe", tag, expr]
+
+    def stmt_probes(self):
+        """Probes on live variables and on a few event paths (type- and value-transparent)."""
+        out = []
+        names = list(self.vars)
+        self.rng.shuffle(names)
+        for name in names[:3]:
+            out.append(self.new_probe("stmt", ["var", name], var=name, perturbed=name in self.perturbed))
+            if self.vars.get(name) in (OBJ, "any") and self.p(0.4):
+                out.append(self.new_probe("stmt", ["path", name, [["f", self.choice(["p", "q", "k1"])]]],
+                                          var=name, perturbed=name in self.perturbed, sub=True))
+        if self.p(0.4):
+            f = self.choice(["o1", "o2", "o3", "o4", "o5", "w", "x", "obj", "arr", "nest"])
+            out.append(self.new_probe("stmt", ["path", ".", [["f", f]]], path=f))
+        if self.p(0.1):
+            out.append(self.new_probe("stmt", ["path", "%", [["f", self.choice(["m1", "m2"])]]], path="%"))
         return out
 
     def target_for(self, kind):
         """A write target and bookkeeping; returns target node."""
         r = self.rng
         c = r.random()
+        if self.o.var_paths and self.p(self.o.var_paths):
+            vs = self.vars_of(OBJ) + self.vars_of("any")
+            if vs:
+                name = r.choice(vs)
+                self.perturbed.add(name)
+                segs = [["f", r.choice(["p", "q", "k1"])]]
+                if self.p(0.2):
+                    segs.append(["f", "z"] if self.p(0.5) else ["i", r.choice([0, 1, -1])])
+                return ["tvar", name, segs]
         if c < 0.45:
             # variable (new or existing)
             if self.vars and self.p(0.4):
                 name = r.choice(list(self.vars))
+                if self.in_closure or self.scope_depth:
+                    self.perturbed.add(name)
             else:
                 name = self.fresh_var()
             self.vars[name] = kind
@@ -405,9 +465,119 @@ class Gen:
             return ["tpath", ".", [["f", "o5"], ["i", r.choice([0, 1, 2, -1])]]]
         return ["tpath", "%", [["f", r.choice(["m1", "m2"])]]]
 
+    def stdlib_stmt(self, d):
+        """target = f!(args) / f(args) ?? null  for an arbitrary stdlib function."""
+        from . import stdlib_args as sa
+        r = self.rng
+        f = r.choice(self.o.stdlib)
+        call = sa.choose_call(r, f, literal_p=0.5)
+        vals = sa.choose_values(r, call)
+        args = []
+        for (p, kind, form), v in zip(call.used, vals):
+            e = None
+            if form != "lit":
+                k = {"bytes": STR, "integer": INT, "float": FLOAT, "boolean": BOOL, "array": ARR,
+                     "object": OBJ, "null": NULL}.get(kind)
+                if k is not None and self.p(0.6):
+                    e, _ = self.expr(k, False, min(d, 1))
+                elif self.p(0.3):
+                    e = self.any_atom()
+            if e is None:
+                try:
+                    from .lit import lit as _lit
+                    _lit(v)
+                    e = L(v)
+                except Exception:
+                    e = self.any_atom()
+            args.append([p["keyword"], e])
+        if f["closure"]:
+            return []
+        node = ["call", f["id"], args, True, None]
+        return [["assign", self.target_for("any"), node]]
+
+    def ext_path(self, write=False):
+        r = self.rng
+        prefix = "%" if r.random() < 0.2 else "."
+        base = r.choice(["o1", "o2", "w", "x", "obj", "arr", "nest", "o5", "s", "deep"])
+        segs = [["f", base]]
+        for _ in range(r.choice([0, 0, 1, 1, 2])):
+            if r.random() < 0.3:
+                segs.append(["i", r.choice([0, 1, 2, -1, -2])])
+            else:
+                segs.append(["f", r.choice(["p", "q", "k1", "k2", "a b", "extra"])])
+        return prefix, segs
+
+    def target_stmt(self, d):
+        """Statement that touches the external target in a nested construct."""
+        r = self.rng
+        c = r.random()
+        prefix, segs = self.ext_path()
+        if c < 0.25:
+            e, _ = self.expr(r.choice(ALLK + ["any"]), False, min(d, 2))
+            return [["assign", ["tpath", prefix, segs], e]]
+        if c < 0.40:
+            p2, s2 = self.ext_path()
+            name = self.fresh_var()
+            self.vars[name] = "any"
+            return [["assign", ["tvar", name, []], ["path", p2, s2]]]
+        if c < 0.55:
+            args = [[None, ["path", prefix, segs]]]
+            if r.random() < 0.3:
+                args.append(["compact", L(r.random() < 0.5)])
+            call = ["call", "del", args, False, None]
+            if r.random() < 0.5:
+                return [["assign", self.target_for("any"), call]]
+            return [call]
+        if c < 0.65:
+            name = self.fresh_var()
+            self.vars[name] = BOOL
+            return [["assign", ["tvar", name, []], ["call", "exists", [[None, ["path", prefix, segs]]], False, None]]]
+        if c < 0.78 and self.o.assign2:
+            # infallible assignment to two external targets
+            kind = r.choice([INT, STR, BOOL, ARR, OBJ])
+            e = self.fallible(kind, min(d, 1))
+            p2, s2 = self.ext_path()
+            return [["assign2", ["tpath", prefix, segs], ["tpath", p2, s2 + [["f", "err"]]], e, "x%d" % r.randint(0, 10 ** 6)]]
+        if c < 0.86:
+            e, _ = self.expr(OBJ, False, min(d, 1))
+            tp = ["tpath", prefix, [["f", r.choice(["obj", "o1", "nest"])]]]
+            if self.o.bang or True:
+                # `|=` needs an object target: fall back to handling the failure
+                return [["assign", tp, ["op", "??", ["op", "|", ["call", "object", [[None, ["path", tp[1], tp[2]]]], False, None], e], e]]]
+        if c < 0.93 and self.o.bang:
+            name = self.fresh_var()
+            self.vars[name] = "any"
+            return [["assign", ["tvar", name, []], ["op", "??", ["call", "unnest", [[None, ["path", ".", [["f", r.choice(["arr", "o5", "x"])]]]]], False, None], L(None)]]]
+        pred = ["call", "exists", [[None, ["path", prefix, segs]]], False, None]
+        body = self.stmts(1, max(d - 1, 0), scoped=True)
+        return [["if", [[[pred], body]], None]]
+
     def stmt(self, d):
         r = self.rng
         out = []
+        if self.o.stdlib and self.o.bang and self.p(self.o.stdlib_p):
+            return self.stdlib_stmt(d)
+        if self.o.var_paths and self.p(self.o.var_paths * 0.5):
+            vs = self.vars_of(OBJ) + self.vars_of("any")
+            if vs:
+                name = r.choice(vs)
+                self.perturbed.add(name)
+                return [["call", "del", [[None, ["path", name, [["f", r.choice(["p", "q", "k1"])]]]]], False, None]]
+        if self.o.const_bias and self.p(self.o.const_bias):
+            kind = r.choice([INT, INT, FLOAT, STR, BOOL, OBJ, ARR])
+            if kind == INT and self.p(0.4):
+                e = ["op", r.choice(["+", "-", "*"]), self.lit(INT), self.lit(INT)]
+            elif kind == OBJ:
+                e = L({"p": r.randint(0, 9), "q": r.choice([0, 2, 5])})
+            else:
+                e = self.lit(kind)
+            name = self.fresh_var() if not self.vars or self.p(0.6) else r.choice(list(self.vars))
+            if name in self.vars and (self.in_closure or self.scope_depth):
+                self.perturbed.add(name)
+            self.vars[name] = kind
+            return [["assign", ["tvar", name, []], e]]
+        if self.o.target_bias and self.p(self.o.target_bias):
+            return self.target_stmt(d)
         c = r.random()
         if c < 0.34:
             kind = r.choice(ALLK + ["any"])
